@@ -110,6 +110,10 @@ int c_dateutils_getdate(double day, int * date)
 {
     int year, month, nday, nbday;
 
+    /* A day that cannot be converted to an integer is not a date */
+    if(isnan(day) || day < 0 || day > 2147483647.)
+        return DATEUTILS_ERROR + __LINE__;
+
     year = (int)(day * 1e-4);
     month = (int)(day * 1e-2) - year * 100;
     nday = (int)(day) - year * 10000 - month * 100;
